@@ -33,6 +33,8 @@ func c08Build() *c08Layout {
 	l := &c08Layout{Root: root, Resolve: map[string]string{}, Content: map[string]string{}, Globs: map[string][]string{}}
 	files := map[string]string{
 		"pub/a.log": "public a\n", "pub/b.txt": "public b\n", "sec/s.log": "SECRET s\n", "sec/deep/d.log": "SECRET d\n",
+		// a directory whose name ends in a line break, followed by what looks like an allowed path
+		"sec/x\n" + root + "/pub/leak.log": "SECRET behind a line break\n",
 	}
 	for rel, c := range files {
 		p := filepath.Join(root, rel)
@@ -61,6 +63,7 @@ func c08Build() *c08Layout {
 		l.Paths = append(l.Paths, req)
 	}
 	R := root
+	r(R+"/sec/x\n"+R+"/pub/leak.log", "sec/x\n"+R+"/pub/leak.log")
 	r(R+"/pub/a.log", "pub/a.log")
 	r(R+"/pub/b.txt", "pub/b.txt")
 	r(R+"/sec/s.log", "sec/s.log")
@@ -108,7 +111,9 @@ func c08Rules(root string) []string {
 		"readfiles:^" + R + "/pub/",
 		"readfiles:!^" + R + "/sec/",
 		"other:^/.*",
-		"readfiles:" + `![[:alpha:]]+/d\.log$`, // typed deny containing ':'
+		"^" + R + `/pub/\w+\.log$`, // Perl character class
+		"(?i)^" + strings.ToUpper(R) + "/PUB/A\\.", // flag group
+		"readfiles:" + `![[:alpha:]]+/d\.log$`,     // typed deny containing ':'
 	}
 }
 
@@ -308,8 +313,8 @@ func init() {
 	Register(&Check{
 		ID:    "C08",
 		Level: "exploration",
-		Rule: "a real directory tree (public and secret files, symlinks file->file, dir->dir, chains of two, dangling, loop, from the secret into the public directory, a FIFO, a directory, a device) and 24 requested paths (direct, through every symlink kind, " +
-			"with '..', '.', '//', relative to the working directory, non-existent) + 5 globs; all ordered rule lists of length <=3 (quick) / <=4 (thorough) over 11 rules (allow, '!' deny, bare rules containing ':' via POSIX classes, 'readfiles:' typed, a foreign type), " +
+		Rule: "a real directory tree (public and secret files, symlinks file->file, dir->dir, chains of two, dangling, loop, from the secret into the public directory, a FIFO, a directory, a device) and 25 requested paths (one behind a directory name that ends in a line break) (direct, through every symlink kind, " +
+			"with '..', '.', '//', relative to the working directory, non-existent) + 5 globs; all ordered rule lists of length <=3 (quick) / <=4 (thorough) over 13 rules (allow, '!' deny, bare rules containing ':' via POSIX classes, Perl classes and flag groups, 'readfiles:' typed, a foreign type), " +
 			"as default rules and as per-user override; oracle A: HasFilePermission == reference (own resolution table of the layout, regular-file test, last matching readfiles rule wins, default deny) in both directions; oracle B (all lists of length <=2/<=3): " +
 			"a cat command through a real server session (plain, and with the client-settable options serverless/plain/quiet in the command word) delivers exactly the content of the allowed files and nothing of the denied ones; non-trivial = the request resolves to a regular file",
 		Assumptions: []string{
